@@ -17,7 +17,7 @@ namespace nmtools::array::simd
     using vector_type_t = dtype_t __attribute__((vector_size(bit_width / sizeof(dtype_t))));
     #else
     template <auto bit_width, typename dtype_t>
-    using vector_type_t __attribute__((vector_size(bit_width / sizeof(dtype_t)))) = dtype_t;
+    using vector_type_t __attribute__((vector_size(bit_width / 8))) = dtype_t;
     #endif
 
     template <auto n_bit>
